@@ -8,9 +8,19 @@
 (*                                                                                            *)
 (* Sticky = TRUE is a deliberately wrong variant (a key pressed while the content fits stays  *)
 (* pending): TLC must refute ClampOnly for it (the invariant is not vacuous).                 *)
-EXTENDS ScrollableOps
+(*                                                                                            *)
+(* Frames: the renderings handed out stay referenced (a screen, a parent canvas), one per     *)
+(* view height, and a rendering asked for a height whose frame is still held is answered with  *)
+(* that frame - no position is resolved then.  "held": keys, set_scrollpos, wheel events and   *)
+(* content changes drop the frames, and so does a rendering that had to move the position      *)
+(* (clamping after a resize): HeldFramesFresh / AfterRender hold.  "lazy" is the deliberately  *)
+(* wrong variant in which only keys / positions / content changes drop them: TLC must refute   *)
+(* AfterRender (size A, taller size B clamps, size A again shows the old rows).  "none": no    *)
+(* frame is ever held.                                                                         *)
+(* The ASSUMEs at the end check the position function of list views (ScrollableListOps).      *)
+EXTENDS ScrollableListOps
 
-CONSTANTS MaxTotal, MaxH, Depth, W, Sticky
+CONSTANTS MaxTotal, MaxH, Depth, W, Sticky, Frames
 
 VARIABLES stored, pend, total, h, rendered, view, n, last,
           pr,        \* position shown by the last rendering (-1: none yet)
@@ -18,35 +28,46 @@ VARIABLES stored, pend, total, h, rendered, view, n, last,
           clampok,   \* the last rendering, if it followed resizes / content changes only, showed Clamp(pr)
           barw,      \* columns of the ScrollBar around the Scrollable (0: no ScrollBar)
           bar,       \* the bar was drawn by the last rendering
-          given      \* width handed to the wrapped widget by the last render / key / mouse delivery
-vars == <<stored, pend, total, h, rendered, view, n, last, pr, quiet, clampok, barw, bar, given>>
+          given,     \* width handed to the wrapped widget by the last render / key / mouse delivery
+          held       \* view height -> the frame rendered for it that is still referenced and valid (<<>>: none)
+vars == <<stored, pend, total, h, rendered, view, n, last, pr, quiet, clampok, barw, bar, given, held>>
+
+NoFrames == [i \in 1..MaxH |-> <<>>]
 
 Init == /\ stored = 0 /\ pend = "" /\ total \in 0..MaxTotal /\ h \in 1..MaxH
         /\ rendered = FALSE /\ view = <<>> /\ n = 0 /\ last = "init"
         /\ pr = -1 /\ quiet = TRUE /\ clampok = TRUE /\ barw \in 0..1 /\ bar = FALSE /\ given = W
+        /\ held = NoFrames
 
 \* input reaches the wrapped widget with the width of the rendering the user looks at
 Deliver == given' = ChildWidth(bar, W, barw)
 
-Key(k) == /\ pend' = k /\ rendered' = FALSE /\ last' = k /\ quiet' = FALSE /\ Deliver
+\* a scrolling key, an explicit position, a wheel event and a content change make every frame handed out so far invalid
+Key(k) == /\ pend' = k /\ rendered' = FALSE /\ last' = k /\ quiet' = FALSE /\ Deliver /\ held' = NoFrames
           /\ UNCHANGED <<stored, total, h, view, pr, clampok, barw, bar>>
-SetPos(v) == /\ stored' = v /\ rendered' = FALSE /\ last' = "setpos" /\ quiet' = FALSE
+SetPos(v) == /\ stored' = v /\ rendered' = FALSE /\ last' = "setpos" /\ quiet' = FALSE /\ held' = NoFrames
              /\ UNCHANGED <<pend, total, h, view, pr, clampok, barw, bar, given>>
 \* a wheel event is an event on the rendered screen; the ScrollBar turns it into a position one row away
 Wheel(d) == /\ rendered /\ barw > 0 /\ stored' = WheelPos(stored, d) /\ rendered' = FALSE /\ last' = "wheel" /\ quiet' = FALSE
-            /\ Deliver /\ UNCHANGED <<pend, total, h, view, pr, clampok, barw, bar>>
+            /\ Deliver /\ held' = NoFrames /\ UNCHANGED <<pend, total, h, view, pr, clampok, barw, bar>>
+\* a resize alone drops nothing: the frames of the other sizes stay good until the position moves
 Resize(h2) == /\ h' = h2 /\ rendered' = FALSE /\ last' = "resize"
-              /\ UNCHANGED <<stored, pend, total, view, pr, quiet, clampok, barw, bar, given>>
-Content(t2) == /\ total' = t2 /\ rendered' = FALSE /\ last' = "content"
+              /\ UNCHANGED <<stored, pend, total, view, pr, quiet, clampok, barw, bar, given, held>>
+Content(t2) == /\ total' = t2 /\ rendered' = FALSE /\ last' = "content" /\ held' = NoFrames
                /\ UNCHANGED <<stored, pend, h, view, pr, quiet, clampok, barw, bar, given>>
 Render ==
   /\ LET fits == total <= h
-         p == IF Sticky /\ fits THEN 0 ELSE Shown(stored, pend, total, h)
-     IN /\ stored' = p /\ view' = View(p, total, h) /\ pr' = p
+         hit == Frames # "none" /\ held[h] # <<>>            \* answered with the held frame: nothing is resolved
+         p == IF hit THEN stored ELSE IF Sticky /\ fits THEN 0 ELSE Shown(stored, pend, total, h)
+         v == IF hit THEN held[h] ELSE View(p, total, h)
+     IN /\ stored' = p /\ view' = v /\ pr' = p
         /\ clampok' = ((quiet /\ pr >= 0) => p = Clamp(pr, total, h))
-        /\ pend' = IF Sticky /\ fits THEN pend ELSE ""
+        /\ pend' = IF hit \/ (Sticky /\ fits) THEN pend ELSE ""
         /\ bar' = (barw > 0 /\ total > h)
         /\ given' = ChildWidth(barw > 0 /\ total > h, W, barw)
+        /\ held' = IF Frames = "none" \/ hit THEN held
+                   ELSE IF p # stored /\ Frames = "held" THEN [NoFrames EXCEPT ![h] = v]      \* the position moved while rendering
+                   ELSE [held EXCEPT ![h] = v]
   /\ rendered' = TRUE /\ last' = "render" /\ quiet' = TRUE /\ UNCHANGED <<total, h, barw>>
 
 Next == /\ n < Depth /\ n' = n + 1
@@ -66,6 +87,8 @@ AfterRender == rendered =>
   /\ (~Sticky => pend = "")                                    \* a rendering uses up the key
 \* a resize / content change (no key, set_scrollpos or wheel since the last rendering) may only clamp the position
 ClampOnly == clampok
+\* a frame is kept only while a fresh rendering for its height would show the same rows
+HeldFramesFresh == \A i \in 1..MaxH : held[i] # <<>> => held[i] = View(Shown(stored, pend, total, i), total, i)
 \* the bar is drawn exactly when the content has more rows than the view; the wrapped widget has the full width otherwise
 BarState == rendered => /\ bar = (barw > 0 /\ total > h)
                         /\ given = (IF barw > 0 /\ total > h THEN W - barw ELSE W)
@@ -78,4 +101,20 @@ GeometrySatisfiable == rendered /\ total > h =>
   IN /\ PartsOK(tp, th, h - th - tp, h)
      /\ ThumbTopOK(tp, th, stored, h)
      /\ (stored < MaxPos(total, h) => RefTop(total, h, stored + 1) >= tp)     \* never moves up
+
+(* ---- list views: the position function (checked once, over every small list) ---- *)
+SmallItems == ({0} \X (1..3)) \cup ({1} \X (0..5))
+SmallLists == UNION {[1..k -> SmallItems] : k \in 0..3}
+ASSUME ListPositionIsRowsAbove ==
+  \A items \in SmallLists : \A cols \in 1..3 :
+    /\ ListPositionLaw(RowsAbove, items, cols)
+    /\ \A g \in 0..(SumRows(items, cols) - 1) : FirstOK(items, cols, FirstOf(items, cols, g))
+    /\ \A i \in 1..Len(items) : \A off \in 0..(ItemRows(items[i], cols) - 1) :
+         /\ FirstOf(items, cols, RowsAbove(items, cols, <<i, off>>)) = <<i, off>>
+         /\ (RowsAbove(items, cols, <<i, off>>) = 0) = (i = 1 /\ off = 0)          \* only the top of the list is position 0
+         /\ RowsAbove(items, cols, <<i, off>>) < SumRows(items, cols)
+\* the wrong reading (rows cut off the first visible item not counted) breaks the law as soon as an item has two rows
+ASSUME NoInsetReadingRefuted ==
+  \A items \in SmallLists : \A cols \in 1..3 :
+    (\E i \in 1..Len(items) : ItemRows(items[i], cols) > 1) => ~ListPositionLaw(RowsAboveNoInset, items, cols)
 =================================================================================
